@@ -31,7 +31,7 @@ var BreakKinds = []string{
 	"enum/value-above-int32", "enum/value-below-int32",
 	"type/undefined-local", "type/undefined-in-include", "type/unknown-include-prefix", "type/constant-used-as-type", "type/service-used-as-type",
 	"type/undefined-in-container", "type/undefined-typedef-target", "type/undefined-function-result", "type/undefined-argument", "type/undefined-throws", "type/undefined-const-type",
-	"typedef/cycle", "typedef/self",
+	"typedef/cycle", "typedef/self", "typedef/cycle-with-selector-constant",
 	"value/undefined-identifier", "value/undefined-identifier-in-include", "value/undefined-enum-member", "value/ambiguous-identifier",
 	"value/string-for-integer", "value/string-for-double", "value/integer-for-string", "value/list-for-integer", "value/unknown-field-in-struct-literal", "value/non-string-key-in-struct-literal",
 	"value/string-for-bool",
@@ -364,6 +364,10 @@ func Break(rng *vlib.Rng, p *Program, kind string) (b *Broken, ok bool) {
 			a, c := tds[i], tds[i+1]
 			a.Type = &Type{Name: c.Name}
 			c.Type = &Type{Name: a.Name}
+			if parts[1] == "cycle-with-selector-constant" {
+				// a constant that selects a member through the cyclic typedef, as through a typedef of an enum
+				f.Defs = append(f.Defs, &Def{Kind: KConst, Name: "ZZ_SEL", File: f, Type: &Type{Name: "i32"}, Value: &Value{Kind: VIdent, Ident: a.Name + ".x"}})
+			}
 			return done(f, a.Name+" <-> "+c.Name)
 		case "value":
 			// positions: constants and field defaults of a given type category
